@@ -347,6 +347,13 @@ fn op_enc<T: Ty>(d: &[u8]) -> Out {
     let x = T::o(&desc_arg(d)?)?;
     Ok(show_res(x.enc(), |b| hex(&b)))
 }
+fn op_encdec<T: Ty>(d: &[u8]) -> Out {
+    let x = T::o(&desc_arg(d)?)?;
+    match x.enc() {
+        Ok(b) => Ok(format!("ok {} {}", hex(&b), show_res(T::dec(&b), |v| v.shown()))),
+        Err(e) => Ok(show_err(&e).to_string()),
+    }
+}
 fn op_encval<T: Ty>(d: &[u8]) -> Out {
     let x = T::o(&desc_arg(d)?)?;
     Ok(show_res(x.encval(), |b| hex(&b)))
@@ -652,6 +659,7 @@ fn run_case(line: &str) -> Out {
         "rttag" => with_ty!(ty, op_rttag, arg(0)?),
         "enc" => with_ty!(ty, op_enc, arg(0)?),
         "encval" => with_ty!(ty, op_encval, arg(0)?),
+        "encdec" => with_ty!(ty, op_encdec, arg(0)?),
         "enctag" => with_ty!(ty, op_enctag, arg(0)?),
         "cmp" => op_cmp(ty, arg(0)?, arg(1)?),
         "iana" => {
